@@ -238,6 +238,26 @@ def run_stages(pid, cfg, tier, seed, only=None, count=None):
     return (cases_file, prev), None, prev
 
 
+def use_alt_repo(path):
+    """run against a scratch worktree of /repo (mutation testing): a copy of the harness whose path
+    dependencies point at the worktree, its own cargo target dir, evidence/replays kept out of /verif's"""
+    global REPO, HARNESS, TARGET, ALT
+    tag = re.sub(r"[^A-Za-z0-9]+", "-", path).strip("-")
+    REPO = path
+    ALT = tag
+    h2 = os.path.join(VERIF, ".work", "harness-" + tag)
+    subprocess.run(["rsync", "-a", "--delete", "--exclude", "target", HARNESS + "/", h2 + "/"], check=True)
+    ct = os.path.join(h2, "Cargo.toml")
+    for f in [ct] + glob.glob(os.path.join(h2, "shims", "*", "Cargo.toml")):
+        txt = open(f).read().replace('"/repo/', '"%s/' % path)
+        open(f, "w").write(txt)
+    HARNESS = h2
+    TARGET = os.path.join(VERIF, ".target-" + tag)
+
+
+ALT = None
+
+
 def known_findings():
     known = {}
     p = os.path.join(VERIF, "KNOWN_FINDINGS.txt")
@@ -288,16 +308,20 @@ def main(argv):
     tier = os.environ.get("VERIF_TIER", "quick")
     seed = int(os.environ.get("VERIF_SEED", "1"))
     replay = None
+    alt_repo = None
     i = 1
     while i < len(argv):
         if argv[i] == "--tier": tier = argv[i + 1]; i += 1
         elif argv[i] == "--seed": seed = int(argv[i + 1]); i += 1
         elif argv[i] == "--replay": replay = argv[i + 1]; i += 1
+        elif argv[i] == "--repo": alt_repo = os.path.abspath(argv[i + 1]); i += 1
         i += 1
     if tier not in ("quick", "thorough"):
         tier = "quick"
     cfg = load_cfg(pid)
     t0 = time.time()
+    if alt_repo:
+        use_alt_repo(alt_repo)
     only = None
     if replay:
         rp = json.load(open(replay))
@@ -368,7 +392,7 @@ def main(argv):
         violations.sort(key=lambda v: (not v[3], {"PROP-FAIL": 0, "MODEL-DIFF": 1}.get(v[0], 2)))
         kind, cid, detail, found = violations[0]
         os.makedirs(os.path.join(VERIF, "replays"), exist_ok=True)
-        replay_path = os.path.join(VERIF, "replays", "%s-%s-%d.json" % (pid, tier, seed))
+        replay_path = os.path.join(VERIF, "replays", "%s%s-%s-%d.json" % (pid, ("-" + ALT) if ALT else "", tier, seed))
         rp = {
             "property": pid, "kind": kind, "seed": seed, "tier": tier, "case_id": cid,
             "case_line": pv["cases"].get(cid) if pv else None,
@@ -428,8 +452,9 @@ def main(argv):
             "wall_s": round(wall, 2),
             "violations": len(violations),
         }
-        os.makedirs(os.path.join(VERIF, "evidence"), exist_ok=True)
-        json.dump(ev, open(os.path.join(VERIF, "evidence", pid + ".json"), "w"), indent=1)
+        evdir = os.path.join(VERIF, ".work", "evidence-" + ALT) if ALT else os.path.join(VERIF, "evidence")
+        os.makedirs(evdir, exist_ok=True)
+        json.dump(ev, open(os.path.join(evdir, pid + ".json"), "w"), indent=1)
     log("RESULT property=%s tier=%s seed=%d theorems=%d cases=%s model_diff=%s prop_fail=%s known=%d wall=%.1fs rc=%d" % (
         pid, tier, seed, len(pr["theorems"]), pv["total"] if pv else "-", len(pv["diffs"]) if pv else "-",
         len(pv["fails"]) if pv else "-", len(known_hits), wall, rc))
